@@ -154,11 +154,12 @@ CLAIMS = {
  },
  'C18': {
   'text': 'TLC enumerates Session.tla: every history of <=2 (thorough: kept histories of <=3 plus a spec-defined sample of 3-4) library calls over 8 documents (valid/invalid 837P 4010, many-AK3 837P, '
-          'valid/invalid 834 5010, 835, 270, two-interchange/eight-group file) x {validate with all sinks, context iteration, xml->x12 conversion} x reuse {none, params, maps}; each history is executed '
+          'valid/invalid 834 5010, 835, 270, two-interchange/eight-group file) x {validate with all sinks, context iteration, xml->x12 conversion} x reuse {none, params, maps}, plus for an 837 and an 835 the kinds {iteration by loop id observing the full iterate_loop_segments() event '
+          'stream and every segment text, the same with copy() of every yielded node}; each history is executed '
           'in one fresh interpreter (hash seeds in rotation), Fresh(doc,kind) comes from one-call fresh interpreters under 6/12 hash seeds; verdict, error tree, XML, HTML, acknowledgement, node listing / '
           'converted text (masked only for ack date/time/control numbers and the HTML date line) and a fingerprint of watched globals are recorded as digests and trace-validated by TLC (T_Session): '
           'Obs = Fresh(doc,kind) for every call, globals unchanged, and all fresh processes of one (doc,kind) agree whatever their hash seed.',
-  'note': 'Bounded corpus and history length; stages stop at a deadline and the evidence records exhaustive=false if the exhaustive part was cut short; TLC contributes enumeration and the equality verdicts, '
+  'note': 'A call exceeding 45 s CPU / 3 GB is reported as no_termination and ends its process. Bounded corpus and history length; stages stop at a deadline and the evidence records exhaustive=false if the exhaustive part was cut short; TLC contributes enumeration and the equality verdicts, '
           'the leak itself is only visible by running the code; SHA-1 digests stand for texts; reuse=maps goes through a wrapper of map_if.load_map_file. Trusted: TLC, masking/projection in lib/c18_worker.py.',
   'technique': 'TLA+ model checking (TLC) + replay of TLC-enumerated call histories in fresh interpreters + TLC trace validation of the recorded observations',
  },
@@ -223,7 +224,7 @@ CLAIMS = {
           'the 834 tree) mutating calls from small real 837P/835/834 trees and random 12/24-call histories on the suite documents; every emitted history is replayed on a tree from X12ContextReader comparing '
           'return value / exception class, projected tree (identity, parent, children, values) and iterate_segments() after each call; all read-only calls are observed on every distinct forest reached, and '
           'seeded random 30/40-call histories plus the README / test-suite usage are recorded and validated event by event by T_TreeEdit (TreeDef: per call the set of acceptable results).',
-  'note': 'Alphabets of 15-25 curated paths on the small trees, <=120 sampled paths on the big ones; invalid paths, "../" from segment nodes and calls on deleted nodes only constrain "nothing changes" and the '
+  'note': 'Real code runs under a per-history CPU budget (5/15 s), a per-task CPU budget (90/600 s) and a 1.5 GB address-space allowance; exceeding them is a no_termination violation (evidence key termination_guard). Alphabets of 15-25 curated paths on the small trees, <=120 sampled paths on the big ones; invalid paths, "../" from segment nodes and calls on deleted nodes only constrain "nothing changes" and the '
           'agreement of the four query methods; where "first loop instance only" and "first match overall" differ, get_value/set_value may follow either. Trusted: TLC, PathDef (C17), lib/c10_world.py. '
           'Four defects found and repaired.',
   'technique': 'TLA+ model checking (TLC BFS + simulation) + replay of TLC histories on real trees + TLC trace validation of recorded executions',
